@@ -51,6 +51,7 @@ Example C14_example :
 Proof. split; [reflexivity|]. repeat constructor; simpl; discriminate. Qed.
 
 From Coq Require Import String.
+From Echo Require Gen.Src_mw_handlers Mw.HandlersSrc.
 
 (* ---- the tie to the source by proof: limitedReader.Read / Reset, translated statement by statement from
    middleware/body_limit.go on every run (Gen/Src_bodylimit_fn.v, language Base/GoLite.v), compute the model's
@@ -70,3 +71,18 @@ Theorem C14_source_reset : forall (sym : string -> Z) cnt L rest,
   GoLite.get (fields st') "r.read"%string = reset_count cnt /\ GoLite.get (fields st') "r.limit"%string = L.
 Proof. exact src_reset_is_reset. Qed.
 Print Assumptions C14_source_reset.
+
+(* the request handler (innermost closure) of BodyLimitWithConfig, translated from middleware/body_limit.go on every
+   run (Gen/Src_mw_handlers.v): a declared length above the limit is refused before anything else; otherwise the pooled
+   reader is Reset FIRST, scheduled to go back to the pool, installed as the request body, and only then next runs *)
+Theorem C14_source_handler_order : forall (sym : string -> Z),
+  let st := {| locals := [("c"%string, 0%Z)]; fields := []; events := []; inputs := [[0%Z]] |} in
+  let '(st', ret) := GoLite.run sym Src_mw_handlers.src_body_limit_handler_results Src_mw_handlers.src_body_limit_handler st in
+  if (sym "config.limit" <? sym "req.ContentLength")%Z
+  then ret = [sym "echo.ErrStatusRequestEntityTooLarge"] /\ HandlersSrc.names st' = ["config.Skipper"%string]
+  else ret = [sym "result of next"] /\
+       HandlersSrc.names st' = ["config.Skipper"; "r.Reset"; "defer pool.Put(r)"; "next"]%string /\
+       GoLite.get (fields st') "req.Body" = sym "pool.Get().(*limitedReader)".
+Proof. exact HandlersSrc.src_body_limit_handler_order. Qed.
+Print Assumptions C14_source_handler_order.
+
